@@ -92,37 +92,64 @@ def run_batch(job):
                     raise Machinery(f"own request did not return: {why}")
                 own.append(mine[0]["system"])
             ep.link.take_frames()
-        for (mid, sfn, fn, w, bodyk, body) in msgs:
+        # bursts: in every fourth batch 2-3 messages arrive back to back (one segment), so the receive path queues a block
+        # while the dispatcher is still busy with / just finishing the previous one
+        burst = bid % 4 == 2
+        rngb = random.Random(seed * 7919 + bid)
+        groups, i = [], 0
+        while i < len(msgs):
+            k = rngb.choice([2, 3]) if burst else 1
+            groups.append(msgs[i:i + k])
+            i += k
+        for grp in groups:
             if h.communication_state.current.name != "COMMUNICATING":
                 raise Machinery("handler left COMMUNICATING during the C08 run")
-            name = f"s{sfn:02d}f{fn:02d}"
-            if (sfn, fn) in probe_of:
-                cls = probe_of[(sfn, fn)]
-            elif name in h.callbacks:
-                cls = "builtin"
+            sent = []
+            chunk = b""
+            for (mid, sfn, fn, w, bodyk, body) in grp:
+                name = f"s{sfn:02d}f{fn:02d}"
+                if (sfn, fn) in probe_of:
+                    cls = probe_of[(sfn, fn)]
+                elif name in h.callbacks:
+                    cls = "builtin"
+                else:
+                    cls = "none"
+                # system bytes: mostly distinct ordinary values, every 7th message a boundary value of the 32-bit range
+                sysid = [0, 1, 0x7FFFFFFF, 0x80000000, 0xFFFFFFFF][mid // 7 % 5] if mid % 7 == 0 else 0x70000 + mid
+                reused = None
+                if own and mid % 5 in (1, 3):
+                    reused = "timed-out" if mid % 5 == 1 else "answered"
+                    sysid = own[0] if mid % 5 == 1 else own[1]
+                if any(x[0] == sysid for x in sent):
+                    sysid = 0x70000 + mid          # distinct system bytes inside one burst
+                frame = hsmsrun.data_frame(sfn, fn, w, sysid, body)
+                sent.append((sysid, frame, mid, sfn, fn, w, bodyk, cls, reused))
+                chunk += frame
+            if burst and rngb.random() < 0.3:
+                ep.link.feed(chunk)
+            elif burst:
+                # separate segments, the next one arriving while the previous message is somewhere in the dispatcher
+                for (_sysid, frame_, *_rest) in sent:
+                    ep.link.feed(frame_)
+                    for _ in range(rngb.choice([0, 1, 2, 3, 5, 8, 13, 21, 34, 55, 89])):
+                        s.yield_point()
             else:
-                cls = "none"
-            # system bytes: mostly distinct ordinary values, every 7th message a boundary value of the 32-bit range
-            sysid = [0, 1, 0x7FFFFFFF, 0x80000000, 0xFFFFFFFF][mid // 7 % 5] if mid % 7 == 0 else 0x70000 + mid
-            reused = None
-            if own and mid % 5 in (1, 3):
-                reused = "timed-out" if mid % 5 == 1 else "answered"
-                sysid = own[0] if mid % 5 == 1 else own[1]
-            frame = hsmsrun.data_frame(sfn, fn, w, sysid, body)
-            ep.link.feed(frame)
+                ep.link.feed(sent[0][1])
             ok, why = s.run_until(lambda: False, max_dt=0.5)   # lets sender threads of side effects run
-            echo = []
-            for f in ep.link.take_frames():
-                if f.get("stype") == 0 and f["system"] == sysid:
-                    echo.append({"s": f["s"], "f": f["f"],
-                                 "hdr": f["s"] == 9 and f["f"] == 5 and f["body"] == b"\x21\x0a" + frame[4:14]})
-                elif f.get("stype") == 0 and f["w"]:
-                    # unrelated primary of the handler (e.g. S6F11 of a collection event): acknowledge it generically
-                    pass
-            out.append({"id": mid, "m": {"s": sfn, "f": fn, "w": w, "cls": cls, "body": "ok" if bodyk == "ok" else "bad"},
-                        "bodyk": bodyk, "echo": echo, "role": role, "reused_system": reused})
+            frames_out = ep.link.take_frames()
+            for (sysid, frame, mid, sfn, fn, w, bodyk, cls, reused) in sent:
+                echo = []
+                for f in frames_out:
+                    if f.get("stype") == 0 and f["system"] == sysid:
+                        echo.append({"s": f["s"], "f": f["f"],
+                                     "hdr": f["s"] == 9 and f["f"] == 5 and f["body"] == b"\x21\x0a" + frame[4:14]})
+                out.append({"id": mid, "m": {"s": sfn, "f": fn, "w": w, "cls": cls, "body": "ok" if bodyk == "ok" else "bad"},
+                            "bodyk": bodyk, "echo": echo, "role": role, "reused_system": reused, "burst": len(sent) if burst else 0})
 
-    s = simrt.run(main, seed=seed, policy="fifo", max_vtime=1e7, wall_timeout=600)
+    import secsgem.common.protocol_dispatcher as pd
+    pol = ["random", "pct", "random"][bid // 4 % 3] if bid % 4 == 2 else "fifo"
+    s = simrt.run(main, seed=seed * 31 + bid, policy=pol, switch_prob=0.4, max_vtime=1e7, wall_timeout=600, pct_depth=3, pct_horizon=2000,
+                  line_funcs=[pd.ProtocolDispatcher._dispatcher_thread_function, pd.ProtocolDispatcher.queue_block] if bid % 4 == 2 else [])
     return {"bid": bid, "role": role, "outcome": s.outcome, "errors": [e[:2] for e in s.errors[:2]], "recs": out,
             "wedge": s.wedge_info}
 
@@ -199,11 +226,13 @@ def run(ctx: Ctx):
         m = r_["m"]
         ctx.violation({"check": "reply", "clause": v["clause"], "role": r_["role"], "cls": m["cls"], "w": m["w"],
                        "bodyk": r_["bodyk"], "s": m["s"], "f": m["f"], "echo": r_["echo"], "reused_system": r_.get("reused_system"),
+                       "burst": r_.get("burst", 0),
                        "what": f"{r_['role']}: inbound S{m['s']}F{m['f']} W={m['w']} ({m['cls']}, body {r_['bodyk']}) -> "
                                f"{v['clause']}: {[(e['s'], e['f']) for e in r_['echo']]}"})
     ctx.rule = ("inbound messages = every catalogued S/F x W x body class + uncatalogued S/F pairs (thorough: all) + probe callbacks, "
                 "shuffled into long sequences on host and equipment handlers, system bytes incl. boundary values and values the handler "
-                "itself used before (a timed-out and an answered transaction of its own); non-trivial = distinct (role,S,F,W,body) that "
+                "itself used before (a timed-out and an answered transaction of its own); in every fourth batch 2-3 messages arrive in "
+                "one segment under random / PCT schedules with line-level preemption in the dispatcher loop; non-trivial = distinct (role,S,F,W,body) that "
                 "produced an answer")
     ctx.extra["inbound_with_reused_system_bytes"] = sum(1 for r_ in recs if r_.get("reused_system"))
     ctx.exhaustive = not ctx.quick
